@@ -7,6 +7,7 @@ if [ -n "$(git -C /repo status --porcelain)" ]; then echo "/repo is not clean"; 
 ids=("$@")
 out=seeded/RESULTS.md
 tmp=$(mktemp /verif/.work/seeded.XXXXXX)
+saved=$(mktemp -d /verif/.work/evidence.XXXXXX); cp -p evidence/*.json "$saved"/   # evidence of the unchanged tree is put back afterwards
 for d in /verif/seeded/C*/*/; do
   id=$(basename "$(dirname "$d")"); name=$(basename "$d")
   if [ ${#ids[@]} -gt 0 ] && [[ ! " ${ids[*]} " =~ " $id " ]]; then continue; fi
@@ -39,4 +40,5 @@ done
   sort "$tmp"
 } > "$out"
 rm -f "$tmp"
+cp -p "$saved"/*.json evidence/; rm -rf "$saved"
 git -C /repo status --short
